@@ -81,6 +81,7 @@ def reuse(s, i):
 def run(s):
     K.suite_workload(s)
     K.fixtures_workload(s)
+    K.collision_cases(s)
     for i in range(130 if s.tier == 'quick' else 5000):
         if s.mine(i):
             reuse(s, i)
